@@ -1533,6 +1533,10 @@ class CodeGenerator(NodeVisitor):
             self.write(")")
 
     def visit_Output(self, node: nodes.Output, frame: Frame) -> None:
+        # An empty {% print %} has nothing to output.
+        if not node.nodes:
+            return
+
         # If an extends is active, don't render outside a block.
         if frame.require_output_check:
             # A top-level extends is known to exist at compile time.
